@@ -40,6 +40,7 @@ func TestMain(m *testing.M) {
 		Probes: []vk.Probe{
 			{ID: "F5-recovery-trusts-stale-aht", Present: probeF5},
 			{ID: "K18-prealloc-torn-commit-log-entry", Present: probeK18},
+			{ID: "K20-recovery-adopts-tx-without-values", Present: probeK20},
 		},
 	})
 }
@@ -609,6 +610,61 @@ func probeF5() (bool, string) {
 	proof, err := st2.DualProof(h1, hn)
 	if err != nil || !store.VerifyDualProof(proof, 1, n, h1.Alh(), hn.Alh()) {
 		return true, fmt.Sprintf("1 committed + 4 precommitted txs, discard since 2, new tx 2 precommitted, process kill: recovered %d txs, dual proof 1->%d does not verify (err=%v)", n, n, err)
+	}
+	return false, ""
+}
+
+// probeK20: one transaction precommitted (buffered only: the syncer is not due for an hour), graceful Close (which
+// flushes the logs without fsync), power loss in which the flushed tail of the tx log reaches the disk and the one
+// of the value log does not: recovery adopts the tx record and commits it although its value is nowhere.
+func probeK20() (bool, string) {
+	dir := vk.Dir()
+	defer os.RemoveAll(dir)
+	cfg := stx.Cfg{Synced: true, SyncFreqMs: 3600 * 1000, HdrVersion: 1, IOConc: 1, FileSize: 1 << 20, TxLogCache: 10, MaxActiveTx: 100, MaxKeyLen: 64,
+		MaxValueLen: 64, MaxTxEntries: 8, WriteBuf: 1 << 20, BulkSize: 1, FlushThld: 100, SyncThld: 100, IdxCache: 10, CompactionThld: 2, AHTSyncThld: 5,
+		MaxBuffered: 1 << 20, ExternalAllow: true}
+	fs := fsim.New(dir)
+	st, err := store.Open(dir, cfg.Options().WithCompactionDisabled(true).WithAppFactory(fs.Factory()))
+	if err != nil {
+		return false, ""
+	}
+	p1, err := precommit(st, []stx.Entry{{Key: []byte("k"), Value: []byte("the-value")}}, 1)
+	if err != nil {
+		st.Close()
+		return false, ""
+	}
+	p1.cancel()
+	<-p1.done
+	st.Close()
+	img := vk.Dir()
+	defer os.RemoveAll(img)
+	err = fs.Materialise(img, fs.Len(), func(p fsim.Pending) fsim.Survive {
+		if strings.HasPrefix(p.Log, "val_") {
+			return fsim.Survive{Keep: 0, Torn: -1}
+		}
+		return fsim.Survive{Keep: p.Flushed, Torn: -1}
+	})
+	if err != nil {
+		return false, ""
+	}
+	cfg.ExternalAllow = false
+	cfg.SyncFreqMs = 1
+	st2, err := store.Open(img, cfg.Options().WithCompactionDisabled(true))
+	if err != nil {
+		return true, "reopen failed: " + err.Error()
+	}
+	defer st2.Close()
+	st2.Sync()
+	if st2.LastCommittedTxID() == 0 {
+		return false, ""
+	}
+	tx := store.NewTx(8, 64)
+	if err := st2.ReadTx(1, false, tx); err != nil {
+		return true, "tx 1 recovered but unreadable: " + err.Error()
+	}
+	v, err := st2.ReadValue(tx.Entries()[0])
+	if err != nil || string(v) != "the-value" {
+		return true, fmt.Sprintf("tx 1 precommitted (never synced), Close, power loss keeping the flushed tx log but not the flushed value log: reopened store commits tx 1, ReadValue = %q, %v", v, err)
 	}
 	return false, ""
 }
